@@ -36,13 +36,13 @@ import (
 func op(kind, key string) txnh.Op { return txnh.Op{Kind: kind, Key: key} }
 
 type readCase struct {
-	name string
-	run  func(s *txnsnapshot.KVSnapshot) (map[string]string, []string, error) // values, order (scans), error
-	keys func(pool []string) []string                                            // keys the case is expected to return info about
-	scan bool
-	rev  bool
-	lo   string
-	hi   string
+	name  string
+	run   func(s *txnsnapshot.KVSnapshot) (map[string]string, []string, error) // values, order (scans), error
+	keys  func(pool []string) []string                                         // keys the case is expected to return info about
+	scan  bool
+	rev   bool
+	lo    string
+	hi    string
 	kOnly bool
 }
 
@@ -310,7 +310,7 @@ func main() {
 			}
 		}
 	}
-	// Explored reader: a 3-key writer dead at any seam event, locks expired, a batch-get reader as an explored actor (P=1: the answers to the concurrent status checks of its resolver in any order; quick: async commit over 3 regions): the dead transaction is driven to the outcome the protocol fixes and the reader returns the MVCC truth. Faulted reads: one reader transaction (its snapshot is reused by all its reads) over committed data
+	// The very first read of each history (the one that meets the leftover locks) is a full batch get through {sync, async path} x {lock reported at pair level, at response level without pairs}, rotating with the history. Explored reader: a 3-key writer dead at any seam event, locks expired, a batch-get reader as an explored actor (P=1: the answers to the concurrent status checks of its resolver in any order; quick: async commit over 3 regions): the dead transaction is driven to the outcome the protocol fixes and the reader returns the MVCC truth. Faulted reads: one reader transaction (its snapshot is reused by all its reads) over committed data
 	// in 2-3 regions, with deviations at its read RPCs - a non-retriable store answer (key error "abort")
 	// for one region's part of a read, a lost request, NotLeader, the store unreachable for that command
 	// from here on - and one preemption, so that the parts of a fanned-out batch get answer in either
@@ -508,6 +508,46 @@ func readGrid(s *txnh.TxnScenario, mock bool) []sched.Violation {
 			return
 		}
 		tsSet[now] = true
+		// First meeting: the leftover locks are resolved by the first read that meets them, so the very
+		// first read of each history is a full batch get through one of four combinations, rotating with
+		// the history: {synchronous, asynchronous batch-get path} x {the store reports a locked key at pair
+		// level, or - as TiKV's command-level lock check does - as a response-level error without pairs}.
+		{
+			combo := 0
+			for _, ch := range fmt.Sprint(pre.Versions, pre.Locks) {
+				combo = (combo*31 + int(ch)) % 4
+			}
+			async, respLevel := combo&1 == 1, combo&2 == 2
+			oldAsync := config.GetGlobalConfig().EnableAsyncBatchGet
+			config.UpdateGlobal(func(c *config.Config) { c.EnableAsyncBatchGet = async })
+			if respLevel {
+				s.W.AfterRPC = func(cl *txnh.Client, req *tikvrpc.Request, resp *tikvrpc.Response) *tikvrpc.Response {
+					r, ok := resp.Resp.(*kvrpcpb.BatchGetResponse)
+					if !ok || r.Error != nil {
+						return resp
+					}
+					for _, p := range r.Pairs {
+						if p.Error != nil && p.Error.Locked != nil {
+							return &tikvrpc.Response{Resp: &kvrpcpb.BatchGetResponse{Error: p.Error}}
+						}
+					}
+					return resp
+				}
+			}
+			c0 := s.W.AddClient()
+			for _, cas := range cs {
+				if cas.name == "bget(a,b,c,d)" {
+					snap0 := c0.Store.GetSnapshot(now)
+					v, o, err := safeRun(cas, snap0)
+					tag := fmt.Sprintf("first-meeting/async=%v/lock-reported-at-response-level=%v", async, respLevel)
+					observed = append(observed, obs{cas, now, v, o, err, tag})
+					v2, o2, err2 := safeRun(cas, snap0)
+					observed = append(observed, obs{cas, now, v2, o2, err2, tag + "/repeat"})
+				}
+			}
+			s.W.AfterRPC = nil
+			config.UpdateGlobal(func(c *config.Config) { c.EnableAsyncBatchGet = oldAsync })
+		}
 		var tss []uint64
 		for ts := range tsSet {
 			tss = append(tss, ts)
@@ -603,6 +643,9 @@ func readGrid(s *txnh.TxnScenario, mock bool) []sched.Violation {
 func (o obs) tagClass() string {
 	if strings.HasPrefix(o.tag, "split@") {
 		return "during-split"
+	}
+	if strings.HasPrefix(o.tag, "first-meeting/") {
+		return strings.TrimSuffix(o.tag, "/repeat")
 	}
 	return o.tag
 }
